@@ -249,8 +249,10 @@ def check_instance(ml, inst, stats=None):
     # independent of the initialiser: the documented meaning of the option, inverse covariance of the DISTINCT training points
     pts = np.unique(np.asarray(pairs, dtype=float).reshape(-1, np.shape(pairs)[2]), axis=0)
     Cp = np.atleast_2d(np.cov(pts, rowvar=False))
-    if np.linalg.cond(Cp) < 1e10:
+    cond_prior = float(np.linalg.cond(Cp))
+    if cond_prior < 1e10:
       M0 = np.linalg.inv(Cp)
+      inst = dict(inst, _cond_prior=cond_prior)
   if err is not None:
     A = fr.get('A')
     if isinstance(A, np.ndarray) and np.all(np.isfinite(A)) and definiteness(A, np.linalg.norm(M0, 2) if M0 is not None else 0.0) == 'unresolved':
@@ -349,7 +351,8 @@ def check_instance(ml, inst, stats=None):
     if stats is not None:
       stats['prior_feasible'] = True
     # (for 'covariance' the reference prior comes from another inversion algorithm than the library's: agreement to 1e-9 relative)
-    if not np.allclose(M, M0, rtol=0, atol=(1e-9 if inst['prior'] == 'covariance' else 1e-12) * np.abs(M0).max()):
+    # two inversion algorithms agree to about cond * eps
+    if not np.allclose(M, M0, rtol=0, atol=(max(1e-9, 1e3 * np.finfo(float).eps * inst.get('_cond_prior', 1.0)) if inst['prior'] == 'covariance' else 1e-12) * np.abs(M0).max()):
       return bad(inst, 'prior-fixpoint', 'the prior satisfies all bounds but max |M - M0| = %g' % np.abs(M - M0).max(), **info)
   # ---- converged-kkt ----
   conv = fr.get('conv')
